@@ -1,6 +1,7 @@
 package main
 
 import (
+	"fmt"
 	"go/token"
 	"go/types"
 	"strings"
@@ -211,6 +212,33 @@ func runC13(c *Ctx) {
 			}
 		}
 		c.Check(okC, "R2.passthrough", "server.AddHardCert arm|comment from the request", w.Pos(cv.Pos()), "msg.Comment (or none in the old format)", "the comment handed to the agent is not the request's: "+w.Short(cv.Call.Args[1]))
+	}
+	// what an arm hands to the served agent derives from the request being served, never from an earlier one
+	{
+		_, _ = framingFns(w, yubiPkg)
+		yrd, _ := framingFns(w, yubiPkg)
+		var readCall *ssa.Call
+		for _, call := range callsIn(serve) {
+			if cv, ok := call.(*ssa.Call); ok && yrd != nil && cv.Call.StaticCallee() == yrd {
+				readCall = cv
+			}
+		}
+		nArgs := 0
+		if readCall != nil && len(serve.Params) > 0 {
+			for _, call := range w.callsInDeep(serve) {
+				cv, ok := call.(*ssa.Call)
+				if !ok || !cv.Call.IsInvoke() || w.canon(serve, cv.Call.Value) != ssa.Value(serve.Params[0]) {
+					continue
+				}
+				for i, a := range cv.Call.Args {
+					nArgs++
+					why := w.staleFrom(a, cv, readCall)
+					c.Check(why == "", "R2.passthrough", fmt.Sprintf("server.%s arm|argument %d belongs to the request being served", cv.Call.Method.Name(), i), w.Pos(cv.Pos()), "defined in this iteration of the request loop",
+						"an argument handed to the served agent can come from a previous request on the connection: "+why)
+				}
+			}
+		}
+		c.Floor("R2.passthrough", nArgs, 5, "arguments of agent calls in the request loop")
 	}
 	// the add-hardware-certificate arm gives up (ends the connection) only after BOTH encodings failed to parse
 	{
